@@ -111,6 +111,12 @@ func GenOps(r *hx.Rng, n int, closeOK bool) []Op {
 			}
 			if r.Chance(1, 10) {
 				o.L.W = r.Intn(nnames) + 1 // WithParent travels with the opts into the internal commit
+				if o.L.W-1 == o.L.T {
+					// WithParent naming the commit's own name makes containerd's storage create a snapshot that is its
+					// own parent; every later chain walk loops forever (known finding, scenario in cmd/snapconc): never
+					// generated here, the model answers NotFound for it
+					o.L.W = 0
+				}
 			}
 			t.nextID++
 			if o.MOK {
@@ -148,6 +154,9 @@ func GenOps(r *hx.Rng, n int, closeOK bool) []Op {
 					o.L.W = p + 1
 				} else {
 					o.L.W = r.Intn(nnames) + 1
+				}
+				if o.L.W-1 == o.Name {
+					o.L.W = 0 // see the note at Prepare: self-parent
 				}
 			}
 			if r.Chance(1, 25) {
